@@ -23,7 +23,7 @@ RULE = ("a real RF24Mesh master on a simulated radio; address requests injected 
         "first hop towards the requester really listens on (listening addresses learnt from real "
         "nodes). save_dhcp()/load_dhcp() round trips for every table size 0..255 in both formats. "
         "Non-trivial: >=1 lease granted or refused; distinct = distinct event histories.")
-RULE += (" Later rounds added: non-request frames and requests arriving while the master transmits, an exact release oracle, persistence after the saved table changed (same and new file), ID look-ups of leased addresses, a JSON table loaded mid-history that hands a leased address to another ID, the displaced ID asking again, JSON tables that re-deal the leased addresses among the present IDs (clause loaded_pairs_present), releases whose reserved byte holds the node's own ID, another leased ID or an unknown one.")
+RULE += (" Later rounds added: non-request frames and requests arriving while the master transmits, an exact release oracle, persistence after the saved table changed (same and new file), ID look-ups of leased addresses, a JSON table loaded mid-history that hands a leased address to another ID, the displaced ID asking again, JSON tables that re-deal the leased addresses among the present IDs (clause loaded_pairs_present), releases whose reserved byte holds the node's own ID, another leased ID or an unknown one; every ID 1..255 as the first entry of a saved table.")
 REQUIRED = {"table_injective": 20000, "reply_checks": 5000, "release_reassign": 40,
             "persistence_roundtrip": 150, "persistence_after_changes": 500}
 BUDGET = {"quick": 480, "thorough": 900}
@@ -159,6 +159,12 @@ def gen_cases(ctx):
     for n in range(0, 256, 1 if ctx.tier == "thorough" else 3):
         for as_bin in (False, True):
             yield {"part": "persist", "n": n, "as_bin": as_bin, "seed": n}
+    # every ID 1..255 as the FIRST entry of a saved table (the first bytes of the file), alone and
+    # followed by two more entries, both formats
+    for first in range(1, 256):
+        for n in (1, 3):
+            for as_bin in (False, True):
+                yield {"part": "persist", "n": n, "as_bin": as_bin, "seed": 1000 + first, "first_id": first}
 
 
 def request_frame(node_id, via, fid):
@@ -484,6 +490,8 @@ def run_persist(ctx, case):
         a = rig.driver(rig.radio("m1"), cls=m["rf24_mesh"].RF24Mesh, node_id=0)
         b = rig.driver(rig.radio("m2"), cls=m["rf24_mesh"].RF24Mesh, node_id=0)
         ids = rng.sample(range(1, 256), min(case["n"], 255))
+        if case.get("first_id"):
+            ids = [case["first_id"]] + [i for i in ids if i != case["first_id"]][:case["n"] - 1]
         addrs = rng.sample(pool, len(ids))
         for i, ad in zip(ids, addrs):
             a.set_address(i, ad)
